@@ -1,92 +1,13 @@
-(* C06: default injection (inject_input_default_values.go) is neutral for the specification on
-   well-shaped values: arrays where the type has a list, objects where it has an input object, no
-   null among the elements of a list of lists / of input objects -- the shapes on which the
-   element counter of jsonWalker does not drift, no enum ref is used as an input object ref, and no
-   string content is re-parsed. *)
+(* C06: default injection (inject_input_default_values.go, as repaired: fixed: inject-defaults-index-drift,
+   inject-defaults-enum-ref, inject-defaults-string-reparsed) is neutral for the specification on EVERY value:
+   what it returns coerces exactly when its input does, keys stay unique, null stays null; and when it
+   stops with an error the value does not coerce (so rejecting the request is right). *)
 From Gv Require Import lib.Bytes lib.Json lib.Gql C06.Num C06.Model C06.Spec C06.ProofsBase C06.ProofsValidator C06.ProofsCoerce C06.ProofsPipeline.
 From Coq Require Import List NArith Bool Lia ZifyN ZifyNat ZifyBool.
 Import ListNotations.
 Open Scope N_scope.
 
-Definition is_str (j : json) : bool := match j with JStr _ => true | _ => false end.
 Definition is_obj (j : json) : bool := match j with JObj _ => true | _ => false end.
-
-(* ------------------------------------------------------------------ the shape *)
-Section Shape.
-  Variable S : schema.
-
-  Fixpoint shp (isobj : bool) (fs : list inputvalue_def) (j : json) {struct j} : ty -> bool :=
-    fix sh (t : ty) : bool :=
-      match t with
-      | TNonNull t' => sh t'
-      | TList t' =>
-        match j with
-        | JArr items => (fix all (l : list json) : bool := match l with [] => true | x :: r => shp isobj fs x t' && all r end) items
-        | _ => false
-        end
-      | TNamed _ =>
-        if isobj then
-          match j with
-          | JObj ms =>
-            (fix mem (l : list (bytes * json)) : bool :=
-               match l with
-               | [] => true
-               | (k, v) :: r =>
-                 match find_ifield k fs with
-                 | Some f =>
-                   is_scalar_or_enum S (iv_type f)
-                   || (negb (is_str v)
-                       && (jnull v
-                           || match lookup S (named_of (iv_type f)) with
-                              | None => true
-                              | Some td' =>
-                                match td_kind td' with
-                                | KScalar => true
-                                | k' => (kind_eqb k' KInputObject || is_list (iv_type f))
-                                        && shp (kind_eqb k' KInputObject) (td_input_fields td') v (iv_type f)
-                                end
-                              end))
-                 | None => true
-                 end && mem r
-               end) ms
-          | _ => false
-          end
-        else negb (is_obj j)
-      end.
-
-  (* a value handed to processObjectOrListInput *)
-  Definition entry (v : json) (t : ty) : bool :=
-    negb (is_str v)
-    && (jnull v
-        || match lookup S (named_of t) with
-           | None => true
-           | Some td =>
-             match td_kind td with
-             | KScalar => true
-             | k => (kind_eqb k KInputObject || is_list t) && shp (kind_eqb k KInputObject) (td_input_fields td) v t
-             end
-           end).
-
-  Definition member_shaped (fs : list inputvalue_def) (kv : bytes * json) : bool :=
-    match find_ifield (fst kv) fs with
-    | Some f => is_scalar_or_enum S (iv_type f) || entry (snd kv) (iv_type f)
-    | None => true
-    end.
-
-  Lemma shp_eq : forall isobj fs j t,
-      shp isobj fs j t =
-      match t with
-      | TNonNull t' => shp isobj fs j t'
-      | TList t' => match j with JArr items => forallb (fun x => shp isobj fs x t') items | _ => false end
-      | TNamed _ => if isobj then match j with JObj ms => forallb (member_shaped fs) ms | _ => false end
-                    else negb (is_obj j)
-      end.
-  Proof.
-    intros isobj fs j t. destruct t as [n|t'|t']; destruct j; try reflexivity.
-    simpl. destruct isobj; auto.
-    induction members as [|[k v] r IH]; simpl; auto. rewrite IH. reflexivity.
-  Qed.
-End Shape.
 
 (* ------------------------------------------------------------------ list facts *)
 Lemma set_member_absent : forall k v ms, ~ In k (map fst ms) -> set_member k v ms = ms ++ [(k, v)].
@@ -133,15 +54,18 @@ Section InjectProof.
   Variable d : dialect.
   Variable S : schema.
   Variable reparse : bytes -> option json.
-  Let q := go_quirks.
+  (* any quirk setting in which the three causes of default injection are repaired *)
+  Variable q : quirks.
+  Hypothesis Hq_drift : q_inject_drift q = false.
+  Hypothesis Hq_kind : q_inject_kind q = false.
+  Hypothesis Hq_rep : q_inject_reparse q = false.
 
   Hypothesis Hfields : fields_nodup S = true.
-  (* defaults in the schema are valid, well-shaped values of their field's type *)
+  (* defaults in the schema are valid values of their field's type (GraphQL schema validity) *)
   Definition field_default_ok (f : inputvalue_def) : bool :=
     match iv_default f with
     | None => true
     | Some dv => json_nodup (value_to_json dv) && coercible_j d S (value_to_json dv) (iv_type f)
-                 && (is_scalar_or_enum S (iv_type f) || entry S (value_to_json dv) (iv_type f))
     end.
   Definition field_defaults_ok : bool :=
     forallb (fun td => forallb field_default_ok (td_input_fields td)) (s_types S).
@@ -151,17 +75,21 @@ Section InjectProof.
   Hypothesis Hdefs : field_defaults_ok = true.
   Hypothesis Honeof : oneof_no_defaults = true.
 
-  (* what a call of processObjectOrListInput on [u] at type [t] must return *)
+  (* what a call of processObjectOrListInput on [u] at type [t] may return *)
   Definition good_res (u : json) (t : ty) (r : ires) : Prop :=
     match r with
     | IOk nv _ => coercible_j d S nv t = coercible_j d S u t /\ json_nodup nv = true /\ jnull nv = jnull u
+    | IErr => coercible_j d S u t = false
     | IFuel => True
-    | _ => False
+    | IPanic => False
     end.
+
+  Definition rel (t : ty) (x x' : json) : Prop :=
+    coercible_j d S x' t = coercible_j d S x t /\ json_nodup x' = true /\ jnull x' = jnull x.
 
   Section Parts.
     Variable inj : ty -> json -> ires.
-    Hypothesis Hinj : forall t u, entry S u t = true -> json_nodup u = true -> good_res u t (inj t u).
+    Hypothesis Hinj : forall t u, json_nodup u = true -> good_res u t (inj t u).
 
     Variable td : type_def.
     Hypothesis Htd : In td (s_types S).
@@ -172,21 +100,18 @@ Section InjectProof.
 
     Lemma field_default_of : forall f dv, In f fs0 -> iv_default f = Some dv ->
         json_nodup (value_to_json dv) = true /\ coercible_j d S (value_to_json dv) (iv_type f) = true
-        /\ (is_scalar_or_enum S (iv_type f) = false -> entry S (value_to_json dv) (iv_type f) = true)
         /\ dirs_have sp_oneOf (td_dirs td) = false.
     Proof.
       intros f dv Hin Hd.
       unfold field_defaults_ok in Hdefs. rewrite forallb_forall in Hdefs. specialize (Hdefs td Htd).
       rewrite forallb_forall in Hdefs. specialize (Hdefs f Hin). unfold field_default_ok in Hdefs. rewrite Hd in Hdefs.
-      apply andb_true_iff in Hdefs. destruct Hdefs as [H12 H3]. apply andb_true_iff in H12. destruct H12 as [H1 H2].
+      apply andb_true_iff in Hdefs. destruct Hdefs as [H1 H2].
       repeat split; auto.
-      - intros Hs. rewrite Hs in H3. exact H3.
-      - unfold oneof_no_defaults in Honeof. rewrite forallb_forall in Honeof. specialize (Honeof td Htd).
-        destruct (dirs_have sp_oneOf (td_dirs td)); auto. simpl in Honeof.
-        rewrite forallb_forall in Honeof. specialize (Honeof f Hin). unfold has_default in Honeof. rewrite Hd in Honeof. discriminate.
+      unfold oneof_no_defaults in Honeof. rewrite forallb_forall in Honeof. specialize (Honeof td Htd).
+      destruct (dirs_have sp_oneOf (td_dirs td)); auto. simpl in Honeof.
+      rewrite forallb_forall in Honeof. specialize (Honeof f Hin). unfold has_default in Honeof. rewrite Hd in Honeof. discriminate.
     Qed.
 
-    (* the three parts of an input object's coercibility, as the members change *)
     Definition obj_ok (ms : list (bytes * json)) : bool := members_ok d S fs0 ms && absent_ok fs0 ms && oneof_ok td ms.
 
     Lemma members_ok_append : forall ms f v,
@@ -195,6 +120,14 @@ Section InjectProof.
     Proof.
       intros ms f v Hin Hc. unfold members_ok. rewrite forallb_app'. simpl.
       rewrite field_named_find_ifield. rewrite (find_ifield_of_in fs0 f fs0_nodup Hin). rewrite Hc. simpl. apply andb_true_r.
+    Qed.
+
+    Lemma members_ok_bad : forall ms f x,
+        In f fs0 -> In (iv_name f, x) ms -> coercible_j d S x (iv_type f) = false -> members_ok d S fs0 ms = false.
+    Proof.
+      intros ms f x Hin Hm Hc. unfold members_ok.
+      destruct (forallb _ ms) eqn:E; auto. rewrite forallb_forall in E. specialize (E _ Hm). simpl in E.
+      rewrite field_named_find_ifield, (find_ifield_of_in fs0 f fs0_nodup Hin) in E. congruence.
     Qed.
 
     Lemma absent_ok_append : forall ms f v,
@@ -259,7 +192,7 @@ Section InjectProof.
       intros ms mf f r dv v Hin Hnd Hdv Habs Hc Hn [H1 [H2 [H3 [H4 [H5 H6]]]]].
       assert (Hk : ~ In (iv_name f) (map fst mf)).
       { apply obj_get_none. rewrite H3 by (left; auto). exact Habs. }
-      destruct (field_default_of f dv Hin Hdv) as [_ [_ [_ Hno]]].
+      destruct (field_default_of f dv Hin Hdv) as [_ [_ Hno]].
       repeat split.
       - rewrite map_app. simpl. apply NoDup_app_single; auto.
       - rewrite forallb_app'. rewrite H2. simpl. rewrite Hn. auto.
@@ -289,48 +222,56 @@ Section InjectProof.
       - rewrite (oneof_ok_set_present mf (iv_name f) x fv); auto.
     Qed.
 
-    (* recursiveInjectInputFields on a well-shaped object *)
-    Lemma loop_ok : forall ms,
-        forallb (member_shaped S fs0) ms = true ->
+    (* recursiveInjectInputFields on an object *)
+    Lemma loop_obj : forall ms,
         forallb (fun kv => json_nodup (snd kv)) ms = true ->
         forall fs mf any,
           (forall f, In f fs -> In f fs0) -> NoDup (map iv_name fs) -> inv ms mf fs ->
-          match inject_loop S inj (JObj ms) fs (JObj mf) any with
+          match inject_loop q S inj (JObj ms) fs (JObj mf) any with
           | IOk final _ => exists mf', final = JObj mf' /\ inv ms mf' []
+          | IErr => members_ok d S fs0 ms = false
           | IFuel => True
-          | _ => False
+          | IPanic => False
           end.
     Proof.
-      intros ms Hsh Hnd. rewrite forallb_forall in Hsh, Hnd.
-      induction fs as [|f r IH]; intros mf any Hsub Hnames Hinv; simpl.
-      - exists mf. auto.
+      intros ms Hnd. rewrite forallb_forall in Hnd.
+      induction fs as [|f r IH]; intros mf any Hsub Hnames Hinv.
+      - simpl. exists mf. auto.
       - assert (Hf0 : In f fs0) by (apply Hsub; left; auto).
         assert (Hsub' : forall g, In g r -> In g fs0) by (intros; apply Hsub; right; auto).
         assert (Hnames' : NoDup (map iv_name r)) by (inversion Hnames; auto).
-        destruct (is_scalar_or_enum S (iv_type f)) eqn:Esc.
-        + destruct (iv_default f) as [dv|] eqn:Edv; [|apply IH; auto; eapply inv_skip; eauto].
-          destruct (obj_get (iv_name f) ms) as [x|] eqn:Ex; [apply IH; auto; eapply inv_skip; eauto|].
-          destruct (field_default_of f dv Hf0 Edv) as [Hn1 [Hc1 _]].
-          assert (Hk : ~ In (iv_name f) (map fst mf)).
-          { destruct Hinv as [_ [_ [H3 _]]]. apply obj_get_none. rewrite H3 by (left; auto). exact Ex. }
-          rewrite set_member_absent by auto.
-          apply IH; auto. eapply inv_append; eauto.
-        + destruct (obj_get (iv_name f) ms) as [x|] eqn:Ex.
-          * (* present: recurse into it *)
-            destruct (obj_get_in _ _ _ Ex) as [k' [Ek Hin]]. subst k'.
-            assert (He : entry S x (iv_type f) = true).
-            { specialize (Hsh _ Hin). unfold member_shaped in Hsh. simpl in Hsh.
-              rewrite (find_ifield_of_in fs0 f fs0_nodup Hf0) in Hsh. rewrite Esc in Hsh. exact Hsh. }
-            assert (Hnx : json_nodup x = true) by (apply (Hnd _ Hin)).
-            pose proof (Hinj (iv_type f) x He Hnx) as Hg.
-            destruct (inj (iv_type f) x) as [fv rep| | |]; simpl in Hg; try contradiction; auto.
-            destruct Hg as [Hc [Hn Hj]]. simpl.
-            destruct rep; [|apply IH; auto; eapply inv_skip; eauto].
-            apply IH; auto. eapply inv_replace; eauto.
+        cbn [inject_loop]. rewrite Hq_rep. cbn [jget negb andb].
+        destruct (obj_get (iv_name f) ms) as [x|] eqn:Ex.
+        + destruct (obj_get_in _ _ _ Ex) as [k' [Ek Hin]]. subst k'.
+          assert (Hnx : json_nodup x = true) by (apply (Hnd _ Hin)).
+          assert (Hskip : match inject_loop q S inj (JObj ms) r (JObj mf) any with
+                          | IOk final _ => exists mf', final = JObj mf' /\ inv ms mf' []
+                          | IErr => members_ok d S fs0 ms = false
+                          | IFuel => True
+                          | IPanic => False
+                          end) by (apply IH; auto; eapply inv_skip; eauto).
+          destruct x; try exact Hskip;
+            (destruct (is_scalar_or_enum S (iv_type f)) eqn:Esc;
+             [destruct (iv_default f); exact Hskip|]);
+            match goal with
+            | |- context [inj (iv_type f) ?xx] =>
+              pose proof (Hinj (iv_type f) xx Hnx) as Hg;
+                destruct (inj (iv_type f) xx) as [fv rep| | |]; simpl in Hg; try contradiction; auto;
+                  [destruct Hg as [Hc [Hn Hj]]; simpl;
+                   destruct rep; [apply IH; auto; eapply inv_replace; eauto|exact Hskip]
+                  |eapply members_ok_bad; eauto]
+            end.
+        + destruct (is_scalar_or_enum S (iv_type f)) eqn:Esc.
           * destruct (iv_default f) as [dv|] eqn:Edv; [|apply IH; auto; eapply inv_skip; eauto].
-            destruct (field_default_of f dv Hf0 Edv) as [Hn1 [Hc1 [He1 _]]].
-            pose proof (Hinj (iv_type f) (value_to_json dv) (He1 Esc) Hn1) as Hg.
-            destruct (inj (iv_type f) (value_to_json dv)) as [fv rep| | |]; simpl in Hg; try contradiction; auto.
+            destruct (field_default_of f dv Hf0 Edv) as [Hn1 [Hc1 _]].
+            assert (Hk : ~ In (iv_name f) (map fst mf)).
+            { destruct Hinv as [_ [_ [H3 _]]]. apply obj_get_none. rewrite H3 by (left; auto). exact Ex. }
+            cbn [jset]. rewrite set_member_absent by auto.
+            apply IH; auto. eapply inv_append; eauto.
+          * destruct (iv_default f) as [dv|] eqn:Edv; [|apply IH; auto; eapply inv_skip; eauto].
+            destruct (field_default_of f dv Hf0 Edv) as [Hn1 [Hc1 _]].
+            pose proof (Hinj (iv_type f) (value_to_json dv) Hn1) as Hg.
+            destruct (inj (iv_type f) (value_to_json dv)) as [fv rep| | |]; simpl in Hg; try contradiction; auto; [|congruence].
             destruct Hg as [Hc [Hn Hj]]. simpl.
             assert (Hk : ~ In (iv_name f) (map fst mf)).
             { destruct Hinv as [_ [_ [H3 _]]]. apply obj_get_none. rewrite H3 by (left; auto). exact Ex. }
@@ -338,94 +279,121 @@ Section InjectProof.
             apply IH; auto. eapply inv_append; eauto; try (rewrite Hc; exact Hc1).
     Qed.
 
+    (* ... and on anything that is not an object: nothing can be written *)
+    Lemma loop_nonobj : forall v, is_obj v = false ->
+        forall fs, (forall f, In f fs -> In f fs0) ->
+        inject_loop q S inj v fs v false = IOk v false
+        \/ inject_loop q S inj v fs v false = IErr
+        \/ inject_loop q S inj v fs v false = IFuel.
+    Proof.
+      intros v Hv. induction fs as [|f r IH]; intros Hsub; [left; reflexivity|].
+      assert (Hf0 : In f fs0) by (apply Hsub; left; auto).
+      specialize (IH (fun g h => Hsub g (or_intror h))).
+      assert (Hex : jget (iv_name f) v = None) by (destruct v; auto; discriminate).
+      assert (Hset : forall k x, jset v k x = None) by (intros; destruct v; auto; discriminate).
+      cbn [inject_loop]. rewrite Hex, Hq_rep. cbn [negb andb].
+      destruct v; try discriminate; auto;
+        (destruct (is_scalar_or_enum S (iv_type f));
+         [destruct (iv_default f); [rewrite Hset; auto|exact IH]
+         |destruct (iv_default f) as [dv|] eqn:Edv; [|exact IH];
+          destruct (field_default_of f dv Hf0 Edv) as [Hn1 [Hc1 _]];
+          pose proof (Hinj (iv_type f) (value_to_json dv) Hn1) as Hg;
+          destruct (inj (iv_type f) (value_to_json dv)); simpl in Hg; try contradiction; auto;
+          simpl; rewrite Hset; auto]).
+    Qed.
+
     Hypothesis Hkind : td_kind td = KInputObject.
     Hypothesis Hfound : find_type (td_name td) (s_types S) = Some td.
 
-    (* the element / value relation the callers need *)
-    Definition rel (t : ty) (x x' : json) : Prop :=
-      coercible_j d S x' t = coercible_j d S x t /\ json_nodup x' = true /\ jnull x' = jnull x.
-
-    Lemma coercible_obj_at : forall t ms, named_of t = td_name td -> is_list t = false ->
-        coercible_j d S (JObj ms) t = obj_ok ms.
+    Lemma coercible_at : forall t v, named_of t = td_name td -> is_list t = false -> jnull v = false ->
+        coercible_j d S v t = match v with JObj ms => obj_ok ms | _ => false end.
     Proof.
-      intros t ms Hn Hl. rewrite coercible_j_strip by reflexivity.
+      intros t v Hn Hl Hnn. rewrite coercible_j_strip by auto.
       unfold is_list in Hl. pose proof (named_of_strip t) as Hns.
       destruct (strip_nonnull t) as [n|t'|t'] eqn:Es; try discriminate.
-      - simpl in Hns. rewrite coercible_j_eq. unfold named_coercible. rewrite Hns, Hn, Hfound, Hkind. reflexivity.
+      - simpl in Hns. rewrite coercible_j_eq. unfold named_coercible. rewrite Hns, Hn, Hfound, Hkind.
+        destruct v; try reflexivity; discriminate.
       - exfalso. eapply strip_nonnull_not_nonnull; eauto.
     Qed.
 
-    Lemma fields_ok : forall t ms,
-        named_of t = td_name td -> is_list t = false ->
-        forallb (member_shaped S fs0) ms = true -> json_nodup (JObj ms) = true ->
-        match inject_fields S inj (Some fs0) (JObj ms) with
-        | IOk nv _ => rel t (JObj ms) nv
+    (* recursiveInjectInputFields on any non-null value, at a non-list type whose name is this input object *)
+    Lemma fields_ok : forall t v,
+        named_of t = td_name td -> is_list t = false -> jnull v = false -> json_nodup v = true ->
+        match inject_fields q S inj (Some fs0) v with
+        | IOk nv _ => rel t v nv
+        | IErr => coercible_j d S v t = false
         | IFuel => True
-        | _ => False
+        | IPanic => False
         end.
     Proof.
-      intros t ms Hn Hl Hsh Hnd. unfold inject_fields.
-      rewrite json_nodup_obj in Hnd. apply andb_true_iff in Hnd. destruct Hnd as [Hk Hv]. apply nodupb_NoDup in Hk.
-      pose proof (loop_ok ms Hsh Hv fs0 ms false (fun f h => h) fs0_nodup) as H.
-      assert (Hinv0 : inv ms ms fs0) by (repeat split; auto).
-      specialize (H Hinv0).
-      destruct (inject_loop S inj (JObj ms) fs0 (JObj ms) false) as [final any| | |]; auto.
-      destruct H as [mf' [-> [H1 [H2 [_ [H4 [H5 H6]]]]]]].
-      unfold rel. rewrite !(coercible_obj_at t) by auto. unfold obj_ok. rewrite H4, H5, H6.
-      repeat split; auto. rewrite json_nodup_obj. apply andb_true_iff. split; auto. apply nodupb_NoDup. auto.
+      intros t v Hn Hl Hnn Hnd. unfold inject_fields.
+      destruct (is_obj v) eqn:Eo.
+      - destruct v as [| | | | |ms]; try discriminate.
+        rewrite json_nodup_obj in Hnd. apply andb_true_iff in Hnd. destruct Hnd as [Hk Hv]. apply nodupb_NoDup in Hk.
+        pose proof (loop_obj ms Hv fs0 ms false (fun f h => h) fs0_nodup) as H.
+        assert (Hinv0 : inv ms ms fs0) by (repeat split; auto).
+        specialize (H Hinv0).
+        destruct (inject_loop q S inj (JObj ms) fs0 (JObj ms) false) as [final any| | |]; auto.
+        + destruct H as [mf' [-> [H1 [H2 [_ [H4 [H5 H6]]]]]]].
+          unfold rel. rewrite !(coercible_at t) by auto. unfold obj_ok. rewrite H4, H5, H6.
+          repeat split; auto. rewrite json_nodup_obj. apply andb_true_iff. split; auto. apply nodupb_NoDup. auto.
+        + rewrite (coercible_at t) by auto. unfold obj_ok. rewrite H. reflexivity.
+      - destruct (loop_nonobj v Eo fs0 (fun f h => h)) as [E|[E|E]]; rewrite E; auto.
+        + unfold rel. auto.
+        + rewrite (coercible_at t) by auto. destruct v; auto. discriminate.
     Qed.
 
-    (* jsonWalker when every element is processed successfully: the counter equals the position *)
-    Lemma walk_all : forall (lol : bool) ofs t' (proc : json -> ires),
+    (* jsonWalker, repaired: the write position is the element's position *)
+    Lemma walk_gen : forall (lol : bool) ofs t',
         forall l,
           (forall x, In x l ->
-                     (match x with
-                      | JArr _ => if lol then Some (inj t' x) else None
-                      | JObj _ => if lol then None else Some (inject_fields S inj ofs x)
-                      | _ => None
-                      end) = Some (proc x)
-                     /\ json_nodup x = true
-                     /\ match proc x with IOk nv _ => rel t' x nv | IFuel => True | _ => False end) ->
-          forall pre rep,
-            match inject_walk q S inj lol ofs t' l (length pre) (length pre) (pre ++ l) rep with
+                     json_nodup x = true
+                     /\ match (match x with
+                               | JArr _ => if lol then Some (inj t' x) else None
+                               | JObj _ => if lol then None else Some (inject_fields q S inj ofs x)
+                               | _ => None
+                               end) with
+                        | None => True
+                        | Some (IOk nv _) => rel t' x nv
+                        | Some IPanic => False
+                        | Some _ => True
+                        end) ->
+          forall pre i rep,
+            match inject_walk q S inj lol ofs t' l (length pre) i (pre ++ l) rep with
             | IOk out _ => exists l', out = JArr (pre ++ l') /\ Forall2 (rel t') l l'
             | IFuel => True
             | _ => False
             end.
     Proof.
-      intros lol ofs t' proc. induction l as [|x r IH]; intros Hall pre rep.
+      intros lol ofs t'. induction l as [|x r IH]; intros Hall pre i rep.
       - simpl. exists []. split; auto.
-      - destruct (Hall x (or_introl eq_refl)) as [Hp [Hn Hr]].
+      - destruct (Hall x (or_introl eq_refl)) as [Hn Hr].
         pose proof (fun y (Hy : In y r) => Hall y (or_intror Hy)) as Hall'.
-        cbn [inject_walk]. rewrite Hp. cbn [q go_quirks q_inject_drift].
-        destruct (proc x) as [nv b| | |]; try contradiction; auto.
-        destruct b.
-        + rewrite set_nth_app.
-          specialize (IH Hall' (pre ++ [nv]) true). rewrite app_length in IH. simpl in IH.
+        assert (Hkeep : forall i' rep',
+                   match inject_walk q S inj lol ofs t' r (Datatypes.S (length pre)) i' (pre ++ x :: r) rep' with
+                   | IOk out _ => exists l', out = JArr (pre ++ l') /\ Forall2 (rel t') (x :: r) l'
+                   | IFuel => True
+                   | _ => False
+                   end).
+        { intros i' rep'. specialize (IH Hall' (pre ++ [x]) i' rep'). rewrite app_length in IH. simpl in IH.
           rewrite PeanoNat.Nat.add_1_r in IH. rewrite <- app_assoc in IH. simpl in IH.
-          destruct (inject_walk q S inj lol ofs t' r (Datatypes.S (length pre)) (Datatypes.S (length pre)) (pre ++ nv :: r) true) as [out b2| | |]; auto.
-          destruct IH as [l' [-> HF]]. exists (nv :: l'). rewrite <- app_assoc. simpl. split; auto.
-        + specialize (IH Hall' (pre ++ [x]) rep). rewrite app_length in IH. simpl in IH.
-          rewrite PeanoNat.Nat.add_1_r in IH. rewrite <- app_assoc in IH. simpl in IH.
-          destruct (inject_walk q S inj lol ofs t' r (Datatypes.S (length pre)) (Datatypes.S (length pre)) (pre ++ x :: r) rep) as [out b2| | |]; auto.
+          destruct (inject_walk q S inj lol ofs t' r (Datatypes.S (length pre)) i' (pre ++ x :: r) rep') as [out b2| | |]; auto.
           destruct IH as [l' [-> HF]]. exists (x :: l'). rewrite <- app_assoc. simpl. split; auto.
-          constructor; auto. unfold rel. auto.
-    Qed.
-
-    (* jsonWalker when no element is processed *)
-    Lemma walk_none : forall (lol : bool) ofs t' l idx i cur rep,
-        (forall x, In x l -> match x with JArr _ => lol = false | JObj _ => lol = true | _ => True end) ->
-        inject_walk q S inj lol ofs t' l idx i cur rep = IOk (JArr cur) rep.
-    Proof.
-      intros lol ofs t'. induction l as [|x r IH]; intros idx i cur rep H; simpl; auto.
-      pose proof (H x (or_introl eq_refl)) as Hx.
-      pose proof (fun y (Hy : In y r) => H y (or_intror Hy)) as Hr.
-      destruct x; try (apply IH; auto); subst lol; apply IH; auto.
+          constructor; auto. unfold rel. auto. }
+        cbn [inject_walk]. rewrite Hq_drift.
+        destruct (match x with
+                  | JArr _ => if lol then Some (inj t' x) else None
+                  | JObj _ => if lol then None else Some (inject_fields q S inj ofs x)
+                  | _ => None
+                  end) as [[nv b| | |]|]; try contradiction; try apply Hkeep; auto.
+        destruct b; [|apply Hkeep].
+        rewrite set_nth_app.
+        specialize (IH Hall' (pre ++ [nv]) (Datatypes.S i) true). rewrite app_length in IH. simpl in IH.
+        rewrite PeanoNat.Nat.add_1_r in IH. rewrite <- app_assoc in IH. simpl in IH.
+        destruct (inject_walk q S inj lol ofs t' r (Datatypes.S (length pre)) (Datatypes.S i) (pre ++ nv :: r) true) as [out b2| | |]; auto.
+        destruct IH as [l' [-> HF]]. exists (nv :: l'). rewrite <- app_assoc. simpl. split; auto.
     Qed.
   End Parts.
-
-  Lemma shp_strip : forall isobj fs j t, shp S isobj fs j t = shp S isobj fs j (strip_nonnull t).
-  Proof. induction t; simpl; auto. rewrite shp_eq. auto. Qed.
 
   Lemma strip_cases : forall t, (exists n, strip_nonnull t = TNamed n /\ is_list t = false /\ n = named_of t)
                                 \/ (exists t', strip_nonnull t = TList t' /\ is_list t = true /\ named_of t' = named_of t).
@@ -458,24 +426,11 @@ Section InjectProof.
     rewrite json_nodup_arr. repeat split; auto.
   Qed.
 
-  Lemma entry_intro : forall v t td,
-      lookup S (named_of t) = Some td -> td_kind td <> KScalar -> is_str v = false ->
-      kind_eqb (td_kind td) KInputObject || is_list t = true ->
-      shp S (kind_eqb (td_kind td) KInputObject) (td_input_fields td) v t = true ->
-      entry S v t = true.
-  Proof.
-    intros v t td Hl Hk Hs Ho Hsh. unfold entry. rewrite Hl, Hs. cbn [negb andb].
-    destruct (jnull v); auto. cbn [orb].
-    destruct (td_kind td) eqn:E; try (exfalso; apply Hk; reflexivity); rewrite Ho, Hsh; reflexivity.
-  Qed.
-
+  (* the input object case of processObjectOrListInput *)
   Lemma core_ok : forall fuel,
-      (forall t v, entry S v t = true -> json_nodup v = true -> good_res v t (inject q S reparse fuel t v)) ->
+      (forall t v, json_nodup v = true -> good_res v t (inject q S reparse fuel t v)) ->
       forall t v td,
-        lookup S (named_of t) = Some td -> td_kind td <> KScalar ->
-        is_str v = false -> jnull v = false ->
-        kind_eqb (td_kind td) KInputObject || is_list t = true ->
-        shp S (kind_eqb (td_kind td) KInputObject) (td_input_fields td) v t = true ->
+        lookup S (named_of t) = Some td -> td_kind td = KInputObject ->
         json_nodup v = true ->
         good_res v t
                  (match v with
@@ -488,110 +443,78 @@ Section InjectProof.
                       end
                     else IOk v false
                   | _ => if is_list t then IOk v false else
-                           match inject_fields S (inject q S reparse fuel) (fields_by_ref S td) v with
+                           match inject_fields q S (inject q S reparse fuel) (fields_by_ref S td) v with
                            | IOk _ false => IOk v false
                            | other => other
                            end
                   end).
   Proof.
-    intros fuel IH t v td Hl Hk Hs Hnn Hol Hsh Hnd.
+    intros fuel IH t v td Hl Hkind Hnd.
     unfold lookup in Hl. destruct (find_type_in _ _ _ Hl) as [Htd Hname].
     assert (Hfound : find_type (td_name td) (s_types S) = Some td) by (rewrite Hname; exact Hl).
-    rewrite shp_strip in Hsh.
-    set (isobj := kind_eqb (td_kind td) KInputObject) in *.
-    assert (Hobjk : isobj = true -> td_kind td = KInputObject /\ fields_by_ref S td = Some (td_input_fields td)).
-    { unfold isobj. intros H. destruct (td_kind td) eqn:E; try discriminate. split; auto. unfold fields_by_ref. rewrite E. auto. }
-    destruct (strip_cases t) as [[n [Est [Hlist Hn]]]|[t' [Est [Hlist Hn]]]]; rewrite Est in Hsh; rewrite shp_eq in Hsh; rewrite Hlist in *.
-    - (* a named type: the value is an input object *)
-      rewrite orb_false_r in Hol. rewrite Hol in Hsh. destruct (Hobjk Hol) as [Hkind Hfb].
-      destruct v as [| | | |items|ms]; try discriminate.
-      rewrite Hfb.
+    assert (Hfb : fields_by_ref S td = Some (td_input_fields td)) by (unfold fields_by_ref; rewrite Hkind; auto).
+    rewrite Hfb.
+    assert (Hfields_case : forall t0 v0, named_of t0 = td_name td -> is_list t0 = false -> jnull v0 = false -> json_nodup v0 = true ->
+               good_res v0 t0 (match inject_fields q S (inject q S reparse fuel) (Some (td_input_fields td)) v0 with
+                               | IOk _ false => IOk v0 false
+                               | other => other
+                               end)).
+    { intros t0 v0 Hn0 Hl0 Hnn0 Hnd0.
+      pose proof (fields_ok (inject q S reparse fuel) IH td Htd Hkind Hfound t0 v0 Hn0 Hl0 Hnn0 Hnd0) as H.
+      destruct (inject_fields q S (inject q S reparse fuel) (Some (td_input_fields td)) v0) as [nv b| | |]; auto.
+      destruct b; [exact H|apply good_res_refl; auto]. }
+    destruct (strip_cases t) as [[n [Est [Hlist Hn]]]|[t' [Est [Hlist Hn]]]]; rewrite Hlist.
+    - (* a named type *)
       assert (Hnt : named_of t = td_name td) by congruence.
-      pose proof (fields_ok (inject q S reparse fuel) IH td Htd Hkind Hfound t ms Hnt Hlist Hsh Hnd) as H.
-      destruct (inject_fields S (inject q S reparse fuel) (Some (td_input_fields td)) (JObj ms)) as [nv b| | |]; auto.
-      destruct b; [exact H|apply good_res_refl; auto].
-    - (* a list type: the value is an array *)
-      destruct v as [| | | |items|ms]; try discriminate.
+      destruct v; try (apply good_res_refl; auto; fail); apply Hfields_case; auto.
+    - (* a list type *)
       rewrite Est.
-      rewrite json_nodup_arr in Hnd. rewrite forallb_forall in Hsh, Hnd.
-      assert (Hlk : lookup S (named_of t') = Some td) by (unfold lookup; rewrite Hn; exact Hl).
-      destruct (is_list t') eqn:Hlol.
-      + (* list of lists: every element is an array and goes through the next level *)
-        pose proof (walk_all (inject q S reparse fuel) true (fields_by_ref S td) t' (fun x => inject q S reparse fuel t' x) items) as HW.
-        match type of HW with (?A -> _) => assert (Hall : A) end; [|specialize (HW Hall [] false); simpl in HW].
-        { intros x Hin. specialize (Hsh x Hin). specialize (Hnd x Hin).
-          assert (Hsh' := Hsh). rewrite shp_strip in Hsh.
-          destruct (strip_cases t') as [[n2 [E2 [Hl2 _]]]|[t2 [E2 [Hl2 _]]]]; [congruence|].
-          rewrite E2 in Hsh. rewrite shp_eq in Hsh.
-          destruct x as [| | | |xs|xm]; try discriminate.
-          split; [reflexivity|]. split; auto.
-          assert (He : entry S (JArr xs) t' = true).
-          { apply (entry_intro (JArr xs) t' td); auto. rewrite Hlol. apply orb_true_r. }
-          specialize (IH t' (JArr xs) He Hnd).
-          destruct (inject q S reparse fuel t' (JArr xs)); simpl in IH; auto. }
-        destruct (inject_walk q S (inject q S reparse fuel) true (fields_by_ref S td) t' items 0 0 items false) as [out b| | |]; auto.
-        destruct HW as [l' [-> HF]]. eapply good_res_arr; eauto.
-      + destruct isobj eqn:Eobj.
-        * (* list of input objects: every element is an object *)
-          destruct (Hobjk eq_refl) as [Hkind Hfb]. rewrite Hfb.
-          pose proof (walk_all (inject q S reparse fuel) false (Some (td_input_fields td)) t'
-                               (fun x => inject_fields S (inject q S reparse fuel) (Some (td_input_fields td)) x) items) as HW.
-          match type of HW with (?A -> _) => assert (Hall : A) end; [|specialize (HW Hall [] false); simpl in HW].
-          { intros x Hin. specialize (Hsh x Hin). specialize (Hnd x Hin).
-            rewrite shp_strip in Hsh.
-            destruct (strip_cases t') as [[n2 [E2 [Hl2 Hn2]]]|[t2 [E2 [Hl2 _]]]]; [|congruence].
-            rewrite E2 in Hsh. rewrite shp_eq in Hsh.
-            destruct x as [| | | |xs|xm]; try discriminate.
-            split; [reflexivity|]. split; auto.
-            assert (Hnt : named_of t' = td_name td) by congruence.
-            exact (fields_ok (inject q S reparse fuel) IH td Htd Hkind Hfound t' xm Hnt Hl2 Hsh Hnd). }
-          destruct (inject_walk q S (inject q S reparse fuel) false (Some (td_input_fields td)) t' items 0 0 items false) as [out b| | |]; auto.
-          destruct HW as [l' [-> HF]]. eapply good_res_arr; eauto.
-        * (* list of enums (or of another kind): nothing is processed *)
-          rewrite walk_none.
-          -- apply good_res_refl. rewrite json_nodup_arr. apply forallb_forall. auto.
-          -- intros x Hin. specialize (Hsh x Hin). rewrite shp_strip in Hsh.
-             destruct (strip_cases t') as [[n2 [E2 _]]|[t2 [E2 [Hl2 _]]]]; [|congruence].
-             rewrite E2 in Hsh. rewrite shp_eq in Hsh. destruct x; auto; discriminate.
+      destruct v as [| | | |items|ms]; try (apply good_res_refl; auto; fail).
+      rewrite json_nodup_arr in Hnd. rewrite forallb_forall in Hnd.
+      pose proof (walk_gen (inject q S reparse fuel) (is_list t') (Some (td_input_fields td)) t' items) as HW.
+      match type of HW with (?A -> _) => assert (Hall : A) end; [|specialize (HW Hall [] O false); simpl in HW].
+      { intros x Hin. specialize (Hnd x Hin). split; auto.
+        destruct x as [| | | |xs|xm]; auto.
+        - destruct (is_list t'); auto. specialize (IH t' (JArr xs) Hnd).
+          destruct (inject q S reparse fuel t' (JArr xs)); simpl in IH; auto.
+        - destruct (is_list t') eqn:Hlol; auto.
+          assert (Hnt : named_of t' = td_name td) by congruence.
+          pose proof (fields_ok (inject q S reparse fuel) IH td Htd Hkind Hfound t' (JObj xm) Hnt Hlol eq_refl Hnd) as H.
+          destruct (inject_fields q S (inject q S reparse fuel) (Some (td_input_fields td)) (JObj xm)); auto. }
+      destruct (inject_walk q S (inject q S reparse fuel) (is_list t') (Some (td_input_fields td)) t' items 0 0 items false) as [out b| | |]; try contradiction; auto.
+      destruct HW as [l' [-> HF]]. eapply good_res_arr; eauto.
   Qed.
 
-  (* processObjectOrListInput on a well-shaped value: same coercibility, keys still unique, null stays null *)
-  Theorem inject_ok : forall fuel t v,
-      entry S v t = true -> json_nodup v = true -> good_res v t (inject q S reparse fuel t v).
+  (* processObjectOrListInput on every value *)
+  Theorem inject_ok : forall fuel t v, json_nodup v = true -> good_res v t (inject q S reparse fuel t v).
   Proof.
-    induction fuel as [|fuel IH]; intros t v He Hn; [exact I|].
-    unfold entry in He. apply andb_true_iff in He. destruct He as [Hs He]. apply negb_true_iff in Hs.
-    cbn [inject].
-    assert (Hoval : match v with JStr s => if q_inject_reparse q then reparse s else Some v | _ => Some v end = Some v)
-      by (destruct v; auto; discriminate).
+    induction fuel as [|fuel IH]; intros t v Hn; [exact I|].
+    cbn [inject]. rewrite Hq_rep, Hq_kind. cbn [negb andb].
+    assert (Hoval : match v with JStr _ => Some v | _ => Some v end = Some v) by (destruct v; auto).
     rewrite Hoval.
     destruct (lookup S (named_of t)) as [td|] eqn:El; [|apply good_res_refl; auto].
-    destruct (jnull v) eqn:Hnull.
-    { destruct v; try discriminate. destruct (td_kind td); simpl; auto. }
-    rewrite orb_false_l in He.
-    destruct (td_kind td) eqn:Ek; try (apply good_res_refl; auto; fail);
-      cbv iota beta in He; apply andb_true_iff in He; destruct He as [He1 He2];
-        (apply (core_ok fuel IH t v td El); [rewrite Ek; discriminate| | | | |]; auto; rewrite Ek; auto).
+    destruct (td_kind td) eqn:Ek; try (apply good_res_refl; auto; fail).
+    cbn [kind_eqb negb andb].
+    apply (core_ok fuel IH t v td El Ek Hn).
   Qed.
 End InjectProof.
 
 (* ------------------------------------------------------------------ the pipeline with default injection *)
-Section PipelineShaped.
+Section PipelineFull.
   Variable S : schema.
   Variable reparse : bytes -> option json.
-  Let q := go_quirks.
-  Let d := weak_strict.
+  Variable q : quirks.
+  Hypothesis Hq_drift : q_inject_drift q = false.
+  Hypothesis Hq_kind : q_inject_kind q = false.
+  Hypothesis Hq_rep : q_inject_reparse q = false.
+  Hypothesis Hq_fnull : q_field_null_default q = false.
+  Hypothesis Hq_enull : q_elem_null_default q = false.
+  Let d := dialect_of q.
+  Let dfull := Build_dialect true (q_int_any_number q) (q_id_any_number q).
 
   Hypothesis Hfields : fields_nodup S = true.
   Hypothesis Hdefs : field_defaults_ok d S = true.
   Hypothesis Honeof : oneof_no_defaults S = true.
-
-  (* the value of a variable after list coercion and default extraction is well-shaped *)
-  Definition var_shaped (ms : list (bytes * json)) (vd : vardef) : bool :=
-    match norm_value q S vd ms with
-    | None => true
-    | Some u => is_scalar_or_enum S (vd_type vd) || entry S u (vd_type vd)
-    end.
 
   Lemma norm_value_ext : forall vd ms ms', obj_get (vd_name vd) ms = obj_get (vd_name vd) ms' ->
                                            norm_value q S vd ms = norm_value q S vd ms'.
@@ -603,121 +526,132 @@ Section PipelineShaped.
     | Some u => exists nv, obj_get (vd_name vd) ms3 = Some nv
                            /\ coercible_j d S nv (vd_type vd) = coercible_j d S u (vd_type vd)
     end.
+  (* what a normalisation error means for the variable it stopped at *)
+  Definition var_bad (ms : list (bytes * json)) (vd : vardef) : Prop :=
+    coercible d S (vd_type vd) false (norm_value q S vd ms) = false.
 
   Lemma norm_var_ok : forall vd ms,
-      var_default_ok q S d vd = true -> json_nodup (JObj ms) = true -> var_shaped ms vd = true ->
+      var_default_ok q S d vd = true -> json_nodup (JObj ms) = true ->
       match norm_var q S reparse vd ms with
       | NOk ms3 => json_nodup (JObj ms3) = true
                    /\ (forall k, k <> vd_name vd -> obj_get k ms3 = obj_get k ms)
                    /\ var_result ms ms3 vd
+      | NErr => var_bad ms vd
       | NFuel => True
-      | _ => False
+      | NPanic => False
       end.
   Proof.
-    intros vd ms Hd Hn Hsh.
+    intros vd ms Hd Hn.
     pose proof (norm_var_ni_nodup q S d vd ms Hd Hn) as Hn2.
     pose proof (norm_var_ni_same q S vd ms) as Hsame.
     pose proof (norm_var_ni_other q S vd ms) as Hother.
-    unfold norm_var. fold (norm_var_ni q S vd ms).
+    unfold norm_var.
     change (extract_default q vd
               match obj_get (vd_name vd) ms with
               | Some v => set_member (vd_name vd) (coerce_j S v (vd_type vd)) ms
               | None => ms
               end) with (norm_var_ni q S vd ms).
     set (ms2 := norm_var_ni q S vd ms) in *.
-    unfold var_shaped in Hsh. unfold var_result.
+    unfold var_result, var_bad.
     rewrite Hsame. destruct (norm_value q S vd ms) as [u|] eqn:Enu.
     2:{ repeat split; auto. }
     assert (Hnu : json_nodup u = true).
     { rewrite json_nodup_obj in Hn2. apply andb_true_iff in Hn2. destruct Hn2 as [_ Hv]. rewrite forallb_forall in Hv.
       destruct (obj_get_in _ _ _ Hsame) as [k' [_ Hin]]. apply (Hv (k', u)). auto. }
-    destruct (is_scalar_or_enum S (vd_type vd)) eqn:Esc.
-    { repeat split; auto. exists u. auto. }
-    simpl in Hsh.
-    pose proof (inject_ok d S reparse Hfields Hdefs Honeof (inject_budget S u) (vd_type vd) u Hsh Hnu) as Hg.
-    fold q in Hg.
+    assert (Hkeep : json_nodup (JObj ms2) = true
+                    /\ (forall k, k <> vd_name vd -> obj_get k ms2 = obj_get k ms)
+                    /\ (exists nv, obj_get (vd_name vd) ms2 = Some nv
+                                   /\ coercible_j d S nv (vd_type vd) = coercible_j d S u (vd_type vd)))
+      by (repeat split; auto; exists u; auto).
+    rewrite Hq_rep. cbn [negb andb].
+    destruct (match u with JStr _ => true | _ => false end); [exact Hkeep|].
+    destruct (is_scalar_or_enum S (vd_type vd)) eqn:Esc; [exact Hkeep|].
+    pose proof (inject_ok d S reparse q Hq_drift Hq_kind Hq_rep Hfields Hdefs Honeof (inject_budget S u) (vd_type vd) u Hnu) as Hg.
     destruct (inject q S reparse (inject_budget S u) (vd_type vd) u) as [nv rep| | |]; simpl in Hg; try contradiction; auto.
     destruct Hg as [Hc [Hnn _]].
-    destruct rep.
-    - repeat split.
-      + rewrite json_nodup_obj in *. apply andb_true_iff in Hn2. destruct Hn2 as [Hk Hv].
-        apply andb_true_iff. split.
-        * rewrite keys_set_member_present; auto. eapply obj_get_some_key; eauto.
-        * apply forallb_set_member; auto.
-      + intros k Hk. rewrite obj_get_set_member_other by auto. apply Hother. auto.
-      + exists nv. split; auto. apply obj_get_set_member_same.
-    - repeat split; auto. exists u. auto.
+    destruct rep; [|exact Hkeep].
+    repeat split.
+    - rewrite json_nodup_obj in *. apply andb_true_iff in Hn2. destruct Hn2 as [Hk Hv].
+      apply andb_true_iff. split.
+      + rewrite keys_set_member_present; auto. eapply obj_get_some_key; eauto.
+      + apply forallb_set_member; auto.
+    - intros k Hk. rewrite obj_get_set_member_other by auto. apply Hother. auto.
+    - exists nv. split; auto. apply obj_get_set_member_same.
   Qed.
 
   Lemma normalise_ok : forall vds ms,
       NoDup (map vd_name vds) ->
       forallb (var_default_ok q S d) vds = true -> json_nodup (JObj ms) = true ->
-      forallb (var_shaped ms) vds = true ->
       match normalise q S reparse vds ms with
       | NOk ms' => json_nodup (JObj ms') = true
                    /\ (forall k, ~ In k (map vd_name vds) -> obj_get k ms' = obj_get k ms)
                    /\ (forall vd, In vd vds -> var_result ms ms' vd)
+      | NErr => exists vd, In vd vds /\ var_bad ms vd
       | NFuel => True
-      | _ => False
+      | NPanic => False
       end.
   Proof.
-    induction vds as [|vd r IH]; intros ms Hnd Hd Hn Hsh; simpl.
+    induction vds as [|vd r IH]; intros ms Hnd Hd Hn; simpl.
     - repeat split; auto. intros vd [].
-    - simpl in Hd, Hsh. apply andb_true_iff in Hd. destruct Hd as [Hd1 Hd2].
-      apply andb_true_iff in Hsh. destruct Hsh as [Hs1 Hs2]. inversion Hnd as [|? ? H1 H2]; subst.
-      pose proof (norm_var_ok vd ms Hd1 Hn Hs1) as Hv1.
+    - simpl in Hd. apply andb_true_iff in Hd. destruct Hd as [Hd1 Hd2].
+      inversion Hnd as [|? ? H1 H2]; subst.
+      pose proof (norm_var_ok vd ms Hd1 Hn) as Hv1.
       destruct (norm_var q S reparse vd ms) as [ms3| | |]; try contradiction; auto.
+      2:{ exists vd. split; auto. }
       destruct Hv1 as [Hn3 [Hoth Hres]].
-      assert (Hs3 : forallb (var_shaped ms3) r = true).
-      { rewrite forallb_forall in *. intros v Hv. specialize (Hs2 v Hv). unfold var_shaped in *.
-        rewrite (norm_value_ext v ms3 ms); auto. apply Hoth. intros E. apply H1. rewrite <- E. apply in_map. auto. }
-      specialize (IH ms3 H2 Hd2 Hn3 Hs3).
+      assert (Hsame : forall v, In v r -> obj_get (vd_name v) ms = obj_get (vd_name v) ms3).
+      { intros v Hv. symmetry. apply Hoth. intros E. apply H1. rewrite <- E. apply in_map. auto. }
+      specialize (IH ms3 H2 Hd2 Hn3).
       destruct (normalise q S reparse r ms3) as [ms'| | |]; try contradiction; auto.
-      destruct IH as [Hn' [Hoth' Hres']]. repeat split; auto.
-      + intros k Hk. rewrite Hoth' by (intros Hin; apply Hk; right; auto). apply Hoth. intros E. apply Hk. left. auto.
-      + intros v [<-|Hv].
-        * unfold var_result in *. rewrite Hoth' by auto. exact Hres.
-        * specialize (Hres' v Hv). unfold var_result in *.
-          rewrite (norm_value_ext v ms ms3).
-          -- exact Hres'.
-          -- symmetry. apply Hoth. intros E. apply H1. rewrite <- E. apply in_map. auto.
+      + destruct IH as [Hn' [Hoth' Hres']]. repeat split; auto.
+        * intros k Hk. rewrite Hoth' by (intros Hin; apply Hk; right; auto). apply Hoth. intros E. apply Hk. left. auto.
+        * intros v [<-|Hv].
+          -- unfold var_result in *. rewrite Hoth' by auto. exact Hres.
+          -- specialize (Hres' v Hv). unfold var_result in *.
+             rewrite (norm_value_ext v ms ms3) by (apply Hsame; auto). exact Hres'.
+      + destruct IH as [v [Hv Hb]]. exists v. split; auto. unfold var_bad in *.
+        rewrite (norm_value_ext v ms ms3) by (apply Hsame; auto). exact Hb.
   Qed.
 
   (* the strict reading of what the validator will find = the full reading of the request *)
   Lemma norm_value_coercible : forall vd ms,
       var_default_ok q S d vd = true ->
-      coercible d S (vd_type vd) false (norm_value q S vd ms) = coercible_var weak S (JObj ms) vd.
+      coercible d S (vd_type vd) false (norm_value q S vd ms) = coercible_var dfull S (JObj ms) vd.
   Proof.
     intros vd ms Hd. unfold coercible_var, coercible, vd_hasdef, norm_value. simpl.
     destruct (obj_get (vd_name vd) ms) as [v|].
-    - apply (coerce_correct true true).
+    - apply coerce_correct.
     - unfold var_default_ok in Hd. destruct (vd_default vd) as [dv|]; simpl; auto.
       apply andb_true_iff in Hd. tauto.
   Qed.
 
-  Theorem pipeline_shaped_iff_coercible : forall vds ms,
+  Theorem pipeline_full_iff_coercible : forall vds ms,
       json_nodup (JObj ms) = true ->
       vars_nodup vds = true ->
       no_upload_ref S vds = true ->
-      defaults_nullable_only S = true ->
       forallb (var_default_ok q S d) vds = true ->
-      forallb (var_shaped ms) vds = true ->
       normalise q S reparse vds ms <> NFuel ->
-      (accepts q S reparse vds (JObj ms) = true <-> coercible_all weak S vds (JObj ms) = true).
+      (accepts q S reparse vds (JObj ms) = true <-> coercible_all dfull S vds (JObj ms) = true).
   Proof.
-    intros vds ms Hj Hv HU HD Hdef Hsh Hfuel.
+    intros vds ms Hj Hv HU Hdef Hfuel.
     apply nodupb_NoDup in Hv.
-    pose proof (normalise_ok vds ms Hv Hdef Hj Hsh) as Hn.
+    pose proof (normalise_ok vds ms Hv Hdef Hj) as Hn.
     unfold accepts, pipeline.
     destruct (normalise q S reparse vds ms) as [ms'| | |]; try contradiction; try congruence.
+    2:{ (* normalisation stopped: the variable it stopped at does not coerce *)
+      destruct Hn as [vd [Hin Hb]]. unfold var_bad in Hb.
+      rewrite norm_value_coercible in Hb by (rewrite forallb_forall in Hdef; auto).
+      split; [discriminate|]. intros H. unfold coercible_all in H. rewrite forallb_forall in H.
+      rewrite (H vd Hin) in Hb. discriminate. }
     destruct Hn as [Hn' [_ Hres]].
     assert (Hperm : Permutation.Permutation (remap q vds) vds) by (apply remap_perm; eapply no_upload_ref_vars; eauto).
     assert (Hval : validate q S (remap q vds) (JObj ms') = None
                    <-> coercible_all (dialect_of q) S (map strip_default (remap q vds)) (JObj ms') = true).
-    { apply validate_iff_coercible; auto. right. eapply no_upload_ref_perm; eauto. }
+    { apply validate_iff_coercible; auto;
+        try (right; eapply no_upload_ref_perm; eauto; fail); try (left; split; assumption). }
     rewrite (coercible_all_perm (dialect_of q) S (map strip_default vds) (map strip_default (remap q vds)) (JObj ms')) in Hval
       by (apply Permutation.Permutation_map; auto).
-    assert (Heq : coercible_all (dialect_of q) S (map strip_default vds) (JObj ms') = coercible_all weak S vds (JObj ms)).
+    assert (Heq : coercible_all (dialect_of q) S (map strip_default vds) (JObj ms') = coercible_all dfull S vds (JObj ms)).
     { unfold coercible_all.
       assert (Hfm : forall (f : vardef -> bool) l, forallb f (map strip_default l) = forallb (fun x => f (strip_default x)) l).
       { induction l; simpl; auto. rewrite IHl. auto. }
@@ -731,4 +665,4 @@ Section PipelineShaped.
     rewrite Heq in Hval. rewrite <- Hval.
     destruct (validate q S (remap q vds) (JObj ms')); split; intros; congruence.
   Qed.
-End PipelineShaped.
+End PipelineFull.
